@@ -547,13 +547,13 @@ def o8(h, st):
 
 
 @contract("C10", "O9.sampled.wide_registers.deterministic", level="B",
-          structures=lambda tier: [{"n": n, "n_meas": m, "save": sv, "desired": d} for n, m in ((9, 2), (8, 3), (10, 1), (7, 4), (11, 2), (3, 1)) for sv in (True, False) for d in (False, True)
-                                   if sv or not d][:: 1 if tier != "quick" else 1],
+          structures=lambda tier: [{"n": n, "n_meas": m, "save": sv, "desired": d, "init": it} for n, m in ((9, 2), (8, 3), (10, 1), (7, 4), (11, 2), (3, 1)) for sv in (True, False)
+                                   for d in (False, True) for it in (False, True) if (sv or not d) and (not it or n in (3, 7, 9))][:: 1 if tier != "quick" else 1],
           native_samples=lambda st, rnd, tier: [{"seed": rnd.randint(0, 10 ** 6)}],
           targets=[(BK, "Backend.simulate"), (TGC, "CirqSimulator.simulate_circuit")])
 def o9(h, st):
     """bounded: CLASSICAL (X / CNOT only) circuits with mid-circuit MEASURE gates on registers wide enough that measurements + width exceeds ten: every outcome is certain, so
-    sampled mode (with and without saved mid-circuit measurements, with and without a desired outcome string) must report exactly the one final bitstring of the classical
+    sampled mode (with and without saved mid-circuit measurements, with and without a desired outcome string, from |0...0> or from a user-supplied basis state) must report exactly the one final bitstring of the classical
     evolution with frequency one - each bit under its own qubit, whatever the number of measurement records -, the one mid-circuit string, and their concatenation as joint string"""
     import random
     import numpy as np
@@ -562,6 +562,12 @@ def o9(h, st):
     np.random.seed(int(h.integer("seed")) % (2 ** 31))
     n, n_meas = st["n"], st["n_meas"]
     bits = [0] * n
+    init_sv = None
+    if st.get("init"):
+        # a user-supplied initial state: a random computational basis state (qubit 0 is the most significant bit of a cirq statevector index)
+        bits = [rnd.randrange(2) for _ in range(n)]
+        init_sv = np.zeros(2 ** n, dtype=complex)
+        init_sv[int("".join(str(b) for b in bits), 2)] = 1.0
     gates, mid = [], ""
     meas_left = n_meas
     for step in range(3 * n):
@@ -590,7 +596,7 @@ def o9(h, st):
     shots = 12
     sim = get_backend("cirq", n_shots=shots)
     desired = mid if st["desired"] else None
-    freqs, _ = h.call(BK, "Backend.simulate", sim, c, False, None, desired, st["save"])
+    freqs, _ = h.call(BK, "Backend.simulate", sim, c, False, init_sv, desired, st["save"])
     freqs = {k: v for k, v in freqs.items() if abs(v) > 1e-12}
     h.check("the certain final bitstring (qubit 0 first) with frequency one", set(freqs) == {final} and abs(freqs[final] - 1) < 1e-9, detail=f"{freqs} vs {final}")
     if st["save"]:
